@@ -14,6 +14,9 @@ def valid_vec(sig):
     return ["v"] * len(sig)
 
 
+OTHER_FAILURE_CODES = [(2, 0), (4, 0), (0, 1), (0, 2), (256, 0), (0, 256), (-1, 0), (-2147483648, 0), (6, -2), (65536, 0)]
+
+
 def c13_behaviours(entries, rng, thorough=False):
     bs = []
     for entry, sig, alg in entries:
@@ -24,6 +27,10 @@ def c13_behaviours(entries, rng, thorough=False):
         # first call runs the tests: real tests, injected pass, injected AES failure, injected SHA failure (-1, as the
         # real _sha_self_tests reports it), both; a second call follows to see what was latched
         for aes, sha in ((-9, -9), (0, 0), (1, 0), (0, -1), (1, -1)):
+            bs.append(["stinj %d %d" % (aes, sha), "st 2", "gate %s %s" % (entry, v), "gate %s %s" % (entry, v)])
+        # any non-zero result of a self-test stage is a failure (codes other than the ones today's tests return, rotating per entry)
+        k = len(bs)
+        for aes, sha in [OTHER_FAILURE_CODES[(k + j) % len(OTHER_FAILURE_CODES)] for j in range(2 if not thorough else len(OTHER_FAILURE_CODES))]:
             bs.append(["stinj %d %d" % (aes, sha), "st 2", "gate %s %s" % (entry, v), "gate %s %s" % (entry, v)])
         if "xts" in entry:
             ev = " ".join(["e"] + ["v"] * (len(sig) - 1))
@@ -39,7 +46,7 @@ def c13_behaviours(entries, rng, thorough=False):
 
 SCALAR_VALID = {"l": [16, 32, 48, 64], "L": [16, 17, 31, 63, 64], "t": [8, 12, 16], "w": [1, 16, 48], "F": [1, 3], "a": [20, 1],
                 "s": [0, 5], "q": [15], "g": [0], "n": [4096, 0], "j": [3, 0, 31]}
-SCALAR_BAD = {"l": [15, 17, 1, 63], "L": [15, 0, 1, 16777217, 1 << 32], "t": [0, 4, 15, 17, 32, 1 << 31], "w": [49, 64, 1 << 31],
+SCALAR_BAD = {"l": [15, 17, 1, 63], "L": [15, 0, 1, 16777217, 1 << 32, (1 << 32) + 16, (1 << 32) + 512, 0xFFFFFFFF00000200, (1 << 63) + 64], "t": [0, 4, 15, 17, 32, 1 << 31, (1 << 32) + 16, (1 << 32) + 8], "w": [49, 64, 1 << 31],
               "F": [4, 8, 128]}
 
 
